@@ -185,7 +185,7 @@ Definition c06_case (d : desc) (y : ydesc) (pre : pre_t) (ty : input_type) (ts :
   end.
 
 (* ---------------- C20 / certificates ------------------------------------------------------- *)
-From ML Require Import LinAlg PSDConv.
+From ML Require Import LinAlg PSDConv Cert.
 
 Definition f_eps : fl := PrimFloat.div PrimFloat.one (float_of_Z (2 ^ 52)).
 
@@ -224,11 +224,12 @@ Definition c20_cov_pinv (rtol : Q) (pts M : list (list Q)) : bool :=
 Definition c20_inverse (rtol : Q) (A B : list (list Q)) : bool :=
   mclose rtol (@mmulg QOps A B) (identQ (length A)) && mclose rtol (@mmulg QOps B A) (identQ (length A)).
 (* symmetric positive definite, by exact LDL^T pivots of the symmetrised matrix *)
+(* Proofs/Hom.cert_pd_sound: cert_pd n S = true -> S (read over R) is positive definite *)
 Definition c_spd (rtol : Q) (M : list (list Q)) : bool :=
-  msymQ (Qred (rtol * qmaxabs M)) M && @is_pd QOps (@msym QOps M).
+  msymQ (Qred (rtol * qmaxabs M)) M && cert_pd (length M) (@msym QOps M).
 (* positive semi-definite up to eps_rel * max|M| *)
 Definition c_psd (eps_rel : Q) (M : list (list Q)) : bool :=
-  @is_pd QOps (@add_eps_diag QOps (Qred (eps_rel * qmaxabs M + (1 # 1000000000000000000000000000000))) (@msym QOps M)).
+  cert_pd (length M) (@add_eps_diag QOps (Qred (eps_rel * qmaxabs M + (1 # 1000000000000000000000000000000))) (@msym QOps M)).
 
 (* ---------------- C03 ---------------------------------------------------------------------- *)
 (* documented shape of components_: (n_components or n_features, n_features); fewer rows than
